@@ -475,7 +475,10 @@ def rule_t6(repo):
             if id(f) not in seen and f.module.rel.startswith(('data/', 'integral/inequality.py')):
                 seen.add(id(f))
                 funcs.append(f)
+    from ..normalize import unroll_literal_loops, plain_attributes_and_comparisons, as_func
     for f in funcs:
+        # a dispatch over a written-out table of (predicate name, operator function) pairs is read as the branches it abbreviates
+        f = as_func(f, plain_attributes_and_comparisons(unroll_literal_loops(f.node)))
         cfg = cfg_of(f.node)
         flow = flow_of(f.node)
         shape_tests = [n for n in cfg.test_nodes() if isinstance(n.ast, ast.Call) and call_attr(n.ast) in SHAPE_OP and
